@@ -150,6 +150,25 @@ func (m *multi) toProto(isCellblocks bool, cbs [][]byte) (proto.Message, [][]byt
 	return &pb.MultiRequest{RegionAction: ra}, cbs, size
 }
 
+// validateResponse checks that a MultiResponse received from the network only
+// refers to calls of this request, so that dispatching it cannot go out of
+// bounds.
+func (m *multi) validateResponse(msg proto.Message) error {
+	mr, ok := msg.(*pb.MultiResponse)
+	if !ok {
+		return fmt.Errorf("unexpected response type for Multi: %T", msg)
+	}
+	for _, rar := range mr.GetRegionActionResult() {
+		for _, roe := range rar.GetResultOrException() {
+			i := roe.GetIndex()
+			if i == 0 || int(i) > len(m.calls) || m.calls[i-1] == nil {
+				return fmt.Errorf("result index %d in multi response matches no call", i)
+			}
+		}
+	}
+	return nil
+}
+
 func (m *multi) SerializeCellBlocks(cbs [][]byte) (proto.Message, [][]byte, uint32) {
 	return m.toProto(true, cbs)
 }
@@ -193,7 +212,10 @@ func (m *multi) DeserializeCellBlocks(msg proto.Message, b []byte) (uint32, erro
 				continue
 			}
 
-			c := m.get(i)                     // TODO: maybe return error if it's out-of-bounds
+			if int(i) > len(m.calls) || m.calls[i-1] == nil {
+				return 0, fmt.Errorf("result index %d in multi response matches no call", i)
+			}
+			c := m.get(i)
 			d := c.(canDeserializeCellBlocks) // let it panic, because then it's our bug
 
 			response := c.NewResponse()
@@ -237,6 +259,26 @@ func (m *multi) returnResults(msg proto.Message, err error) (serverErr error) {
 	}
 
 	mr := msg.(*pb.MultiResponse)
+	// A response is not trusted to mention every call exactly once: a call is
+	// completed at most once (its channel has room for one result), an index
+	// that matches no call is ignored, and calls the response says nothing
+	// about get an error instead of waiting forever.
+	delivered := make([]bool, len(m.calls))
+	deliver := func(idx int, res hrpc.RPCResult) {
+		if idx < 0 || idx >= len(m.calls) || m.calls[idx] == nil || delivered[idx] {
+			return
+		}
+		delivered[idx] = true
+		m.calls[idx].ResultChan() <- res
+	}
+	defer func() {
+		for idx, c := range m.calls {
+			if c != nil && !delivered[idx] {
+				deliver(idx, hrpc.RPCResult{Error: RetryableError{
+					errors.New("no result for the call in multi response")}})
+			}
+		}
+	}()
 	noteServerError := func(err error) error {
 		if _, ok := err.(ServerError); ok && serverErr == nil {
 			serverErr = err
@@ -250,11 +292,14 @@ func (m *multi) returnResults(msg proto.Message, err error) (serverErr error) {
 		if e := rar.GetException(); e != nil {
 			// Got an exception for the whole region,
 			// fail all the calls for that region.
+			if i >= len(m.regions) {
+				continue // an exception for a region we did not ask about
+			}
 			reg := m.regions[i]
 
-			err := noteServerError(exceptionToError(*e.Name, string(e.Value)))
+			err := noteServerError(exceptionToError(e.GetName(), string(e.Value)))
 			for j, c := range m.calls {
-				if c == nil {
+				if c == nil || delivered[j] {
 					continue
 				}
 				callReg := hrpc.RegionInfo(nil)
@@ -264,7 +309,7 @@ func (m *multi) returnResults(msg proto.Message, err error) (serverErr error) {
 					callReg = c.Region()
 				}
 				if callReg == reg {
-					c.ResultChan() <- hrpc.RPCResult{Error: err}
+					deliver(j, hrpc.RPCResult{Error: err})
 				}
 			}
 			continue
@@ -275,14 +320,19 @@ func (m *multi) returnResults(msg proto.Message, err error) (serverErr error) {
 			e := roe.GetException()
 			r := roe.GetResult()
 
+			// (receive has validated the indices of a response that came from
+			// the network, see validateResponse)
 			c := m.get(i)
+			if c == nil {
+				continue // the call was dropped when the request was serialized
+			}
 
 			// TODO: don't bother if the call's context has already expired
 
 			if e != nil {
-				c.ResultChan() <- hrpc.RPCResult{
-					Error: noteServerError(exceptionToError(*e.Name, string(e.Value))),
-				}
+				deliver(int(i)-1, hrpc.RPCResult{
+					Error: noteServerError(exceptionToError(e.GetName(), string(e.Value))),
+				})
 				continue
 			}
 
@@ -296,7 +346,7 @@ func (m *multi) returnResults(msg proto.Message, err error) (serverErr error) {
 				panic(fmt.Sprintf("unsupported response type for Multi: %T", response))
 			}
 
-			c.ResultChan() <- hrpc.RPCResult{Msg: response}
+			deliver(int(i)-1, hrpc.RPCResult{Msg: response})
 		}
 	}
 	return serverErr
